@@ -40,8 +40,8 @@ import (
 //
 // Returns nil when no user-defined serializers have been registered.
 func ClientSerializerOptions(cfg *remote.Config) []ClientOption {
-	serializers := cfg.Serializers()
-	if len(serializers) == 0 {
+	typs, sers := cfg.SerializerEntries()
+	if len(typs) == 0 {
 		return nil
 	}
 
@@ -50,8 +50,9 @@ func ClientSerializerOptions(cfg *remote.Config) []ClientOption {
 	// here to avoid a redundant entry in the client's serializer slice.
 	protoMsgType := reflect.TypeFor[proto.Message]()
 
-	opts := make([]ClientOption, 0, len(serializers))
-	for typ, ser := range serializers {
+	opts := make([]ClientOption, 0, len(typs))
+	for i, typ := range typs {
+		ser := sers[i]
 		if typ == protoMsgType {
 			continue
 		}
